@@ -358,3 +358,184 @@ def translate(src, name, cflags, gname, fields, opaque, nslots, headers, builddi
            ["(%s : Z)" % p for p in t.params] + ["(ores_%d : Z)" % (i + 1) for i in range(nslots)]
     text = "Definition %s %s :=\n  %s.\n" % (gname, " ".join(args), code)
     return text, sorted(t.ptrcalls)
+
+
+# ---------------------------------------------------------------------------
+# rotation schedule of the DES key schedule, by evaluating the index arithmetic of the C text
+
+class RotationSchedule:
+    """Walks the body of a function (clang JSON AST) in execution order with every DATA value opaque and every
+    integer that is computed from literals, constant-initialised locals / arrays and loop counters known: counting
+    loops with evaluable bounds are run iteration by iteration, branches on known conditions are followed, other
+    branches are walked on both sides.  Wherever an expression of the form (X >> A) | (X << B) (either order, any
+    parentheses / casts, X one variable) is met with A and B known, the triple (X, A, B) is recorded.  Nothing depends
+    on how the amounts are written: two tables, one table and `28 - n`, constants hoisted into locals, a while loop."""
+
+    def __init__(self):
+        self.records = []
+        self.steps = 0
+
+    def ev(self, n, env):
+        k = n.get("kind")
+        if k in ("ParenExpr", "ConstantExpr", "ImplicitCastExpr", "CStyleCastExpr"):
+            return self.ev(n["inner"][-1], env)
+        if k == "IntegerLiteral":
+            return int(n["value"])
+        if k == "DeclRefExpr":
+            v = env.get(n["referencedDecl"]["name"])
+            return v if isinstance(v, int) else None
+        if k == "ArraySubscriptExpr":
+            b = strip_all(n["inner"][0])
+            i = self.ev(n["inner"][1], env)
+            if b.get("kind") == "DeclRefExpr" and i is not None:
+                arr = env.get(b["referencedDecl"]["name"])
+                if isinstance(arr, list) and 0 <= i < len(arr):
+                    return arr[i]
+            return None
+        if k == "UnaryOperator":
+            v = self.ev(n["inner"][0], env)
+            if v is None:
+                return None
+            return {"-": -v, "+": v, "~": ~v, "!": int(not v)}.get(n.get("opcode"))
+        if k == "ConditionalOperator":
+            c = self.ev(n["inner"][0], env)
+            if c is None:
+                return None
+            return self.ev(n["inner"][1 if c else 2], env)
+        if k == "BinaryOperator":
+            a, b = self.ev(n["inner"][0], env), self.ev(n["inner"][1], env)
+            if a is None or b is None:
+                return None
+            op = n.get("opcode")
+            try:
+                if op == "/":
+                    return int(a / b) if b else None
+                if op == "%":
+                    return a - b * int(a / b) if b else None
+                return {"+": lambda: a + b, "-": lambda: a - b, "*": lambda: a * b, "<<": lambda: a << b, ">>": lambda: a >> b,
+                        "&": lambda: a & b, "|": lambda: a | b, "^": lambda: a ^ b, "<": lambda: int(a < b),
+                        "<=": lambda: int(a <= b), ">": lambda: int(a > b), ">=": lambda: int(a >= b),
+                        "==": lambda: int(a == b), "!=": lambda: int(a != b), "&&": lambda: int(bool(a and b)),
+                        "||": lambda: int(bool(a or b))}[op]()
+            except (KeyError, ValueError, OverflowError):
+                return None
+        return None
+
+    def scan(self, n, env):
+        """look for rotations inside an expression (data flow is not followed, only the index arithmetic)"""
+        if not isinstance(n, dict):
+            return
+        if n.get("kind") == "BinaryOperator" and n.get("opcode") == "|":
+            a, b = strip_all(n["inner"][0]), strip_all(n["inner"][1])
+            if a.get("kind") == "BinaryOperator" and b.get("kind") == "BinaryOperator" and \
+                    {a.get("opcode"), b.get("opcode")} == {">>", "<<"}:
+                xa, xb = strip_all(a["inner"][0]), strip_all(b["inner"][0])
+                if xa.get("kind") == "DeclRefExpr" and xb.get("kind") == "DeclRefExpr" and \
+                        xa["referencedDecl"]["id"] == xb["referencedDecl"]["id"]:
+                    r, l = (a, b) if a["opcode"] == ">>" else (b, a)
+                    ra, la = self.ev(r["inner"][1], env), self.ev(l["inner"][1], env)
+                    if ra is not None and la is not None:
+                        self.records.append((xa["referencedDecl"]["name"], ra, la))
+        for c in n.get("inner", []):
+            self.scan(c, env)
+
+    def assign_target(self, n):
+        n = strip_all(n)
+        return n["referencedDecl"]["name"] if n.get("kind") == "DeclRefExpr" else None
+
+    def stmt(self, n, env):
+        self.steps += 1
+        if self.steps > 200000:
+            raise LeafError("too many steps while evaluating the loop structure")
+        k = n.get("kind")
+        if k == "CompoundStmt":
+            for c in n.get("inner", []):
+                self.stmt(c, env)
+        elif k == "DeclStmt":
+            for d in n.get("inner", []):
+                if d.get("kind") != "VarDecl":
+                    continue
+                init = [c for c in d.get("inner", []) if isinstance(c, dict) and c.get("kind") != "FullComment"]
+                val = None
+                if init:
+                    self.scan(init[-1], env)
+                    if init[-1].get("kind") == "InitListExpr":
+                        vals = [self.ev(x, env) for x in init[-1].get("inner", [])]
+                        val = vals if all(v is not None for v in vals) else None
+                    else:
+                        val = self.ev(init[-1], env)
+                env[d["name"]] = val
+        elif k == "ForStmt":
+            parts = n["inner"]          # init, (condition variable), cond, inc, body
+            init, cond, inc, body = parts[0], parts[2], parts[3], parts[4]
+            if init and init.get("kind"):
+                self.stmt(init, env)
+            self.loop(cond, inc, body, env)
+        elif k == "WhileStmt":
+            self.loop(n["inner"][0], None, n["inner"][-1], env)
+        elif k == "DoStmt":
+            self.stmt(n["inner"][0], env)
+            self.loop(n["inner"][1], None, n["inner"][0], env)
+        elif k == "IfStmt":
+            c = self.ev(n["inner"][0], env)
+            self.scan(n["inner"][0], env)
+            if c is None:
+                for b in n["inner"][1:]:
+                    self.stmt(b, env)
+            elif c:
+                self.stmt(n["inner"][1], env)
+            elif len(n["inner"]) > 2:
+                self.stmt(n["inner"][2], env)
+        elif k in ("BinaryOperator", "CompoundAssignOperator") and n.get("opcode", "").endswith("=") and \
+                n.get("opcode") not in ("==", "!=", "<=", ">="):
+            self.scan(n["inner"][1], env)
+            tgt = self.assign_target(n["inner"][0])
+            if tgt is not None:
+                if n["opcode"] == "=":
+                    env[tgt] = self.ev(n["inner"][1], env)
+                else:
+                    fake = {"kind": "BinaryOperator", "opcode": n["opcode"][:-1], "inner": n["inner"]}
+                    env[tgt] = self.ev(fake, env)
+        elif k == "UnaryOperator" and n.get("opcode") in ("++", "--"):
+            tgt = self.assign_target(n["inner"][0])
+            if tgt is not None and isinstance(env.get(tgt), int):
+                env[tgt] += 1 if n["opcode"] == "++" else -1
+        elif k in ("ReturnStmt", "NullStmt", "BreakStmt", "ContinueStmt"):
+            for c in n.get("inner", []):
+                self.scan(c, env)
+        else:
+            self.scan(n, env)
+
+    def loop(self, cond, inc, body, env):
+        for _ in range(4096):
+            c = self.ev(cond, env) if cond and cond.get("kind") else None
+            if c is None:
+                # bounds not evaluable: the body is walked once with the variables it changes unknown
+                self.stmt(body, env)
+                return
+            if not c:
+                return
+            self.stmt(body, env)
+            if inc and inc.get("kind"):
+                self.stmt(inc, env)
+        raise LeafError("loop does not terminate within 4096 iterations")
+
+
+def rotation_schedule(src, name, cflags, rounds=16):
+    """-> ([right amounts], [left amounts]) of the per-round rotation of the two key halves in function `name`: the two
+    variables that are rotated exactly once per round, by the same amounts"""
+    fn = L.load_function(src, name, cflags)
+    body = [c for c in fn["inner"] if c.get("kind") == "CompoundStmt"][0]
+    rs = RotationSchedule()
+    rs.stmt(body, {})
+    byvar = {}
+    for v, r, l in rs.records:
+        byvar.setdefault(v, []).append((r, l))
+    cands = {v: seq for v, seq in byvar.items() if len(seq) == rounds}
+    if len(cands) != 2:
+        raise LeafError("expected two variables rotated once per round, found %s" % (
+            ", ".join("%s x%d" % (v, len(q)) for v, q in sorted(byvar.items())) or "no rotation"))
+    (v1, s1), (v2, s2) = sorted(cands.items())
+    if s1 != s2:
+        raise LeafError("the two key halves %s and %s are rotated by different amounts" % (v1, v2))
+    return [r for r, _ in s1], [l for _, l in s1]
